@@ -309,7 +309,9 @@ class SSPOC(BaseEstimator):
                 "SSPOC model has no selected sensors so predictions are random. "
                 "Increase n_sensors or lower threshold with SSPOC.update_sensors."
             )
-            return self.dummy_.predict(x[:, 0])
+            # The dummy classifier only needs the number of samples; x has no
+            # columns when it holds measurements at the (zero) selected sensors.
+            return self.dummy_.predict(np.zeros(len(x)))
         if self.refit_:
             return self.classifier.predict(x)
         else:
